@@ -14,6 +14,15 @@ CHECKS = {
  'C07': dict(technique='online trace checker (phase automaton, one-phase-active, bounded progress, no escaping exception) over hook + client-boundary events',
              text='Held on the generated executions under random automation subsets: trace specification checked online at every decision point and every operation; termination only in bounded form.',
              note='Bounded-progress form of termination; run-out counts feasible for the deck; known finding inexact_chip_division (float/Decimal) is listed in known_findings.json.', ref='DESIGN.md §2 C07'),
+ 'C02': dict(technique='offline checker over the recorded operation log against an independent side-pot/eligibility/payout model (constraint oracle)',
+             text='Held on the generated terminal histories: every ChipsPushing of thousands of showdowns (side pots, ties, hi-lo, multi-board, rake) satisfies the payout constraints derived from the statement by a model that never reads State.pots or payoffs.',
+             note='Hand strength from the engine evaluator on tabled cards (C04/C05 decide it); boards from get_board_cards (C14).', ref='DESIGN.md §2 C02'),
+ 'C03': dict(technique='online trace checker: reference betting round advanced by observed operations, compared at every decision + boundary probes of amounts',
+             text='Held on the generated executions: at every betting decision the engine agrees with a ~150-line reference round on actor, round end, fold/call/bring-in legality and amounts, raise admissibility and the [min,max] interval, with amounts probed below/at/between/above the bounds.',
+             note='First actor of a round taken from the engine (C13); documented conventions for straddles, short opening all-ins and the cap.', ref='DESIGN.md §2 C03'),
+ 'C13': dict(technique='runtime observation at the first decision of every betting round vs an independent opener model',
+             text='Held on the generated executions: every judged round opening (blind/straddle/post layouts, stud up-card ties broken by suit, exposed-hand ties, all-in openers) equals the model\'s opener.',
+             note='Rounds in which nobody can act expose no actor and are not judged.', ref='DESIGN.md §2 C13'),
 }
 PENDING_REASON = 'check not built yet in this revision (runtime monitor planned, see DESIGN.md §2); not claimed until it exists'
 
